@@ -365,7 +365,29 @@ def np_binary_repr(num, width=None):
 def np_base_repr(number, base=2, padding=0):
     if not isinstance(number, (SNum, SBool)):
         return _np.base_repr(number, base=base, padding=padding)
-    raise Undecided('np.base_repr of a symbolic int (variable length numeral)')
+    if base not in (2, 16) or padding:
+        raise Undecided('np.base_repr of a symbolic int in base %r / with padding (variable length numeral)' % (base,))
+    if isinstance(number, SBool) or not number.isint:
+        raise Undecided('np.base_repr of a non-integer')
+    # variable length: fork on the sign and on the number of digits (a path per length, like bin())
+    core.CTX.assumed_used.add('numpy: np.base_repr(x, b) is "-" for x < 0 followed by the minimal base-b numeral of |x| ("0" for 0), upper-case digits')
+    t = number.t
+    neg = core.CTX.decide(t < 0)
+    m = z3.simplify(-t) if neg else t
+    if not neg and core.CTX.decide(m == 0):
+        return '0'
+    for L in range(1, 300):
+        if core.CTX.decide(m < (base ** L)):
+            if base == 2:
+                bits = core.CTX.bits(m, L)
+                items = [Dig(2, bits[i], True, (m, i)) for i in range(L - 1, -1, -1)]
+            else:
+                items = []
+                for j in range(L - 1, -1, -1):
+                    q = core.CTX.div(m, 16 ** j) if j > 0 else m
+                    items.append(Dig(16, core.CTX.mod(q, 16), True, (m, j)))
+            return mk((['-'] if neg else []) + items)
+    raise Undecided('np.base_repr: more than 300 digits')
 
 
 def bin_of(x):
